@@ -36,12 +36,19 @@ Proof.
     f_equal. f_equal. lia.
 Qed.
 
-Lemma epoch_inverse_lemma : forall wide y m d h mi s,
+Lemma lop_fits : forall x ub, 0 <= x <= 9223372036854775807 -> lop x ub = (x, ub).
+Proof.
+  intros. unfold lop, wrap64s, fits64, W64.
+  replace ((-9223372036854775808 <=? x) && (x <=? 9223372036854775807)) with true
+    by (symmetry; apply andb_true_intro; split; apply Z.leb_le; lia).
+  cbn [negb]. rewrite orb_false_r. rewrite Z.mod_small by lia. f_equal. lia.
+Qed.
+
+Lemma epoch_inverse_lemma : forall y m d h mi s,
   1970 <= y <= 2099 -> valid_date y m d = true -> 0 <= h < 24 -> 0 <= mi < 60 -> 0 <= s < 60 ->
-  (wide = true \/ days_from_civil y m d * 86400 + h * 3600 + mi * 60 + s <= INT_MAX) ->
-  time_to_epoch_gen wide (mk_tm y m d h mi s) 0 false
+  time_to_epoch (mk_tm y m d h mi s) 0 false
   = Some (days_from_civil y m d * 86400 + h * 3600 + mi * 60 + s, false).
-Proof. intros; apply time_to_epoch_valid; assumption. Qed.
+Proof. intros; apply time_to_epoch_valid; auto. Qed.
 
 (* ------------------------------------------------------------------ the model parser follows the reader *)
 Lemma is_now_false : forall s, (4 <= length s)%nat -> is_now s = false.
@@ -165,7 +172,9 @@ Proof.
   - apply at_end_inv in A. subst l9. inversion E3; subst ms.
     assert (Hl : Z.of_nat (length s) = 17) by (cbn [length] in *; lia). rewrite Hl.
     change (17 =? 21) with false. change (17 =? 17) with true. cbv iota.
-    rewrite Hte. cbn [bind out_of]. f_equal. unfold BILLION, NS_SEC, NS_MS in *. lia.
+    rewrite Hte. cbn [bind].
+    rewrite lop_fits by (unfold BILLION, NS_DAY, NS_SEC, NS_MS, DAYS in *; lia).
+    cbn [out_of]. f_equal. unfold BILLION, NS_SEC, NS_MS in *. lia.
   - destruct (take_char 46 l9) as [k|] eqn:C2; [|discriminate]. cbn [sbind] in E3.
     destruct (take_digits 3 k) as [[ms' k']|] eqn:E; [|discriminate]. cbn [sbind] in E3.
     destruct (at_end k') eqn:A2; [|discriminate]. inversion E3; subst ms'.
@@ -173,8 +182,11 @@ Proof.
     destruct (take_digits_follows _ _ _ _ E) as (R1 & B & L3).
     assert (Hl : Z.of_nat (length s) = 21) by (cbn [length] in *; lia). rewrite Hl.
     change (21 =? 21) with true. cbv iota. cbn [app skip1 tl].
-    rewrite R1. cbn [bind]. rewrite Hte. cbn [bind out_of]. f_equal.
-    unfold BILLION, MILLION, NS_SEC, NS_MS in *. lia.
+    rewrite R1. cbn [bind]. rewrite Hte. cbn [bind].
+    change (10 ^ Z.of_nat 3) with 1000 in B.
+    rewrite lop_fits by (unfold BILLION, NS_DAY, NS_SEC, NS_MS, DAYS in *; lia).
+    rewrite lop_fits by (unfold BILLION, MILLION, NS_DAY, NS_SEC, NS_MS, DAYS in *; lia).
+    cbn [out_of]. f_equal. unfold BILLION, MILLION, NS_SEC, NS_MS in *. lia.
 Qed.
 
 (* UTCTimeOnly: no calendar involved, no int arithmetic *)
@@ -200,7 +212,9 @@ Proof.
     destruct (take_digits_follows _ _ _ _ E) as (R1 & B & L3).
     assert (Hl : Z.of_nat (length s) = 12) by (cbn [length] in *; lia). rewrite Hl.
     change (12 =? 12) with true. cbv iota. cbn [app skip1 tl].
-    rewrite R1. cbn [bind out_of]. f_equal.
+    rewrite R1. cbn [bind]. change (10 ^ Z.of_nat 3) with 1000 in B.
+    rewrite lop_fits by (unfold BILLION, MILLION in *; lia).
+    cbn [out_of]. f_equal.
     unfold BILLION, MILLION, NS_SEC, NS_MS in *. lia.
 Qed.
 
@@ -227,7 +241,8 @@ Proof.
   change {| tm_year := y - 1900; tm_mon := m - 1; tm_mday := d; tm_hour := 0; tm_min := 0; tm_sec := 0 |}
     with (mk_tm y m d 0 0 0).
   rewrite time_to_epoch_valid; auto; try lia.
-  - cbn [bind out_of]. f_equal. fold D. unfold BILLION, NS_DAY, NS_SEC in *. lia.
+  - cbn [bind]. fold D. rewrite lop_fits by (unfold BILLION, NS_DAY, NS_SEC, DAYS in *; lia).
+    cbn [out_of]. f_equal. unfold BILLION, NS_DAY, NS_SEC in *. lia.
   - destruct Hw as [Hw|Hw]; [left; exact Hw|right]. fold D. unfold INT_MAX, NS_DAY, NS_SEC in *. lia.
 Qed.
 
@@ -254,7 +269,8 @@ Proof.
   change {| tm_year := y - 1900; tm_mon := m - 1; tm_mday := 1; tm_hour := 0; tm_min := 0; tm_sec := 0 |}
     with (mk_tm y m 1 0 0 0).
   rewrite time_to_epoch_valid; auto; try lia.
-  - cbn [bind out_of]. f_equal. fold D. unfold BILLION, NS_DAY, NS_SEC in *. lia.
+  - cbn [bind]. fold D. rewrite lop_fits by (unfold BILLION, NS_DAY, NS_SEC, DAYS in *; lia).
+    cbn [out_of]. f_equal. unfold BILLION, NS_DAY, NS_SEC in *. lia.
   - destruct Hw as [Hw|Hw]; [left; exact Hw|right]. fold D. unfold INT_MAX, NS_DAY, NS_SEC in *. lia.
 Qed.
 
